@@ -454,6 +454,29 @@ def r01_4(ctx):
             ctx.ob('R01.4', '%s:lookup-tolerates-missing-job' % name, ok, fi, s, detail)
     osc = mk.children.get('on_state_change')
     q.need(osc is not None, 'on_state_change not found')
+    # The dispatcher treats *any* KeyError as "unknown state" and drops the message.  So a handler must not let a
+    # KeyError of its own escape: every lookup in a table that is shared with other threads (the pool's per-worker
+    # tables: entries vanish when a worker is reaped) is behind a membership test or its own except KeyError.
+    swallow = any(q.protected_by(osc, c, ['KeyError']) is not None
+                  for c in walk_own(osc.node) if isinstance(c, ast.Call) and isinstance(c.func, ast.Subscript))
+    n_tab = 0
+    for name, fi in sorted(mk.children.items()):
+        if name == 'on_state_change' or not swallow:
+            continue
+        for s in [n for n in walk_own(fi.node) if isinstance(n, ast.Subscript) and isinstance(n.ctx, ast.Load)]:
+            base = fi.canon(s.value)
+            if not (base.startswith('self.') and base.count('.') == 1) or isinstance(s.slice, (ast.Slice, ast.Constant)):
+                continue
+            n_tab += 1
+            h = q.protected_by(fi, s, ['KeyError'])
+            stn = fi.cfg.node_containing(s)
+            key = fi.canon(s.slice)
+            ok = h is not None or (bool(stn) and all(q.has_guard(fi, n, '%s in %s' % (key, base), True) for n in stn))
+            ctx.ob('R01.4', '%s:%s-lookup-cannot-raise-into-the-dispatcher' % (name, base.split('.')[1]), ok, fi, s,
+                   '%s[%s] is behind `%s in %s` or its own except KeyError' % (base, key, key, base) if ok else
+                   '%s[%s] raises KeyError when the entry is gone (worker reaped); the dispatcher takes that for an '
+                   'unknown state and drops the message: the job\'s result is lost' % (base, key))
+    q.need(n_tab >= 1, 'no lookup in a shared table found in the dispatched handlers')
     for c in [x for x in walk_own(osc.node) if isinstance(x, ast.Call) and isinstance(x.func, ast.Subscript)]:
         h = q.protected_by(osc, c, ['KeyError'])
         ok = h is not None and not any(isinstance(x, ast.Raise) for st in h.body for x in ast.walk(st))
@@ -546,7 +569,10 @@ def run(ctx):
     r04_4(ctx)
     r04_5(ctx)
     from .c03 import r03_5
-    r03_5(ctx)
+    from ..report import Only
+    r03_5(Only(ctx, ('recorded-before-callback', 'owner-is-always-recorded'), floor=4,
+               doc='ApplyResult._ack records acceptance and the owner before any user callback can fail, on every '
+                   'accepting path (an unrecorded owner = a job nobody fails when its worker dies)'))
     feeder_serves_while_running(ctx, 'R01.7', parts='a')
     ctx.assume('messages on one pipe are delivered in order and not lost by the kernel')
 
